@@ -38,7 +38,7 @@ class C17(BaseCheck):
              'scales.asynchronous:AsyncResult._UnwrapHelper',
              'scales.asynchronous:AsyncResult.ContinueWith', 'scales.asynchronous:AsyncResult.Map')
   REQUIRED_ANCHORS = ANCHORS
-  REQUIRED_CLASSES = ('WhenAll', 'WhenAny', 'Unwrap', 'ContinueWith', 'Map', 'several-completions-per-tick',
+  REQUIRED_CLASSES = ('WhenAll', 'WhenAny', 'Unwrap', 'ContinueWith', 'Map', 'repeated-inputs', 'several-completions-per-tick',
                       'completion-right-after-call')
   ASSUMPTIONS = ('n = 0 inputs is not judged (the statement is vacuous there)',
                  'WhenAny with several inputs already successful at call time may yield any of them')
@@ -69,6 +69,11 @@ class C17(BaseCheck):
       for fn_kind in ('value', 'raise', 'raise-base', 'ar-value', 'ar-fail', 'ar-pending'):
         for pre in (True, False):
           plan.append(('Map', None, outcome + ':' + fn_kind, pre))
+    # one result object at several positions of the input list (a caller that aggregates the same
+    # in-flight result twice, or next to the WhenAny it fed)
+    for layout in ((0, 0), (0, 1, 0), (1, 0, 1), (0, 0, 0), (0, 1, 1, 0), (0, 1, 2, 1), (2, 0, 1, 0, 2)):
+      for kind_ in ('WhenAll', 'WhenAny'):
+        plan.append(('Repeats', kind_, layout, None))
     return plan
 
   def n_cases(self, tier):
@@ -393,6 +398,66 @@ class C17(BaseCheck):
       self._check(out, kind, want, self._observe(ret), {'case': spec_s, 'pre': pre})
       out.sig = (kind, spec_s, pre)
       out.nontrivial = True
+    elif kind == 'Repeats':
+      comb, layout = a, b
+      m = max(layout) + 1
+      n = len(layout)
+      out.classes = [comb, 'repeated-inputs']
+      nsub = 0
+      for outcomes in itertools.product('SF', repeat=m):
+        for npre in range(m + 1):
+          for pre in itertools.combinations(range(m), npre):
+            rest = [j for j in range(m) if j not in pre]
+            for order in itertools.permutations(rest):
+              nsub += 1
+              bases = [AsyncResult() for _ in range(m)]
+              for j in pre:
+                self._complete(bases[j], j, outcomes[j])
+              env.settle()
+              ars = [bases[j] for j in layout]
+              try:
+                ret = AsyncResult.WhenAll(ars) if comb == 'WhenAll' else AsyncResult.WhenAny(ars)
+              except BaseException as e:  # noqa
+                out.obligations += 1
+                out.violate(comb + ':raised-to-caller', '%s raised %s(%s) for a list with repeated inputs %r' % (
+                  comb, type(e).__name__, e, layout), {'combinator': comb, 'repeats': True})
+                continue
+              done = list(pre)
+              post_done = []
+              ctx = {'layout': list(layout), 'outcomes': ''.join(outcomes), 'pre': list(pre), 'order': list(order),
+                     'pre_failed': any(outcomes[j] == 'F' for j in pre)}
+              steps = [None] + list(order)
+              bad = False
+              for st in steps:
+                if st is not None:
+                  self._complete(bases[st], st, outcomes[st])
+                  done.append(st)
+                  post_done.append(st)
+                env.settle()
+                if comb == 'WhenAll':
+                  failed = [j for j in done if outcomes[j] == 'F']
+                  if failed:
+                    spec = ('fail', set('f%d' % j for j in failed))
+                  elif len(done) == m:
+                    spec = ('ok', [('v', j) for j in layout])
+                  else:
+                    spec = ('pending', None)
+                else:
+                  spec = self._when_any_spec(pre, post_done, outcomes, m)
+                if not self._check(out, comb, spec, self._observe(ret), dict(ctx, after_step=st, repeats=True)):
+                  bad = True
+                  break
+              if bad and len(out.violations) >= 4:
+                break
+            if len(out.violations) >= 4:
+              break
+          if len(out.violations) >= 4:
+            break
+        if len(out.violations) >= 4:
+          break
+      out.sig = ('Repeats', comb, layout)
+      out.nontrivial = nsub > 0
+      out.extra = {'repeat_histories': nsub}
     for e in env.errors:
       out.violate('greenlet-error', 'unhandled exception: %s: %s' % (e['type'], e['value']),
                   {'combinator': kind}, e)
